@@ -100,8 +100,10 @@ def _run_case(ctx, case) -> F.Outcome:
         what = problem["what"]
         sig = "roundtrip:" + what
         # classify the one compositional defect precisely so it cannot mask others
-        if case[0] == "single" and what in ("body", "priority") and case[1] in ("x", "~") \
-                and case[3] == "none" and _first_text(ctx.seed, case[4]) == "P5":
+        if case[0] == "single" and case[1] in ("x", "~") and case[3] == "none" \
+                and _first_text(ctx.seed, case[4]) == "P5":
+            # every downstream difference (body, priority, and whatever the
+            # shifted next word is then taken for) has this one cause
             sig = "roundtrip:done-todo-body-starting-with-Pn-is-reread-as-priority"
         out.sig = sig
         out.detail = {"page": text, "emitted_page": text2, "problem": problem}
